@@ -178,6 +178,12 @@ def rule_a2(ctx):
     prog = ctx.prog
     callers = prog.callers()
     # documented exceptions: single symbols, one-line reason each
+    SERVED = {
+        "nni_msgq_aio_put": ("nni_msgq_run_putq", "fast path: the put queue was empty and a reader or room exists (same condition), "
+                             "so nni_msgq_run_putq completes this aio before the lock is released; otherwise it is started first"),
+        "nni_msgq_aio_get": ("nni_msgq_run_getq", "fast path: the get queue was empty and a message or a writer exists, so "
+                             "nni_msgq_run_getq completes this aio before the lock is released; otherwise it is started first"),
+    }
     # Accepted variants, one named symbol each, with the invariant relied on.
     # The exception applies only while the named guard is structurally there.
     EXC = {
@@ -225,6 +231,22 @@ def rule_a2(ctx):
             ok, why = check(fn, a["n"], (s.b, s.i), 0)
             if not ok and place.startswith(LIST_PARK) and transient_park(fn, s, a["n"]):
                 ok, why = True, "transient park: completed or removed again before the lock is released or the aio is started"
+            if not ok and fn.name in SERVED and place.startswith(LIST_PARK):
+                # park that is served at once: the same list was found empty (this aio becomes its head) and the
+                # serving helper runs before the lock is released
+                lst = fn.expand(s.node["args"][0])
+                empty_true = {}
+                for gs in fn.calls("nni_list_empty"):
+                    if same_expr(fn.expand(gs.node["args"][0]), lst):
+                        for b, (nz, z) in fn.value_edges(gs).items():
+                            empty_true[b] = nz
+                serve = [c for c in fn.calls(SERVED[fn.name][0])]
+                unl = {(u.b, u.i) for u in fn.calls("nni_mtx_unlock")}
+                if empty_true and serve and fn.dominated_by((s.b, s.i), edge_ok=lambda b, k: not (b in empty_true and k == empty_true[b])):
+                    seen = fn.reach((s.b, s.i + 1), blocked=lambda b, i, e: (b, i) in {(c.b, c.i) for c in serve})
+                    if not (seen & unl) and (fn.exit, 0) not in seen:
+                        ok, why = True, "exception: " + SERVED[fn.name][1]
+                        r.exception("%s %s" % (fn.name, place), SERVED[fn.name][1])
             if not ok and (fn.name, place) in EXC:
                 gfn, gfield, reason = EXC[(fn.name, place)]
                 # park must be unreachable once the start-success edges AND the
@@ -463,9 +485,10 @@ def rule_a3(ctx):
 # A4: single finish per path,  A5: taken-from-list aio is removed before finish
 
 class _FinishClient(Client):
-    def __init__(self, fn, report):
+    def __init__(self, fn, report, after=None):
         self.fn = fn
         self.report = report
+        self.after = after if after is not None else []
 
     def init(self, sim):
         return frozenset()
@@ -480,19 +503,29 @@ class _FinishClient(Client):
                     if p in st:
                         self.report.append((sim.here(), "->".join(p), sim.lines()))
                     return st | {p}
+        elif n.get("k") == "call" and st and n.get("fn") and n["fn"] not in RESUBMIT:
+            # any other call that receives an aio this path already completed
+            for a in n["args"]:
+                p = apath(fn.expand(a)) if a is not None else None
+                if p is not None and p in st and len(p) == 1:
+                    self.after.append((sim.here(), "->".join(p), n["fn"], sim.lines()))
         elif n.get("k") == "asg":
             p = apath(n["lhs"])
             if p is not None:
                 return frozenset(q for q in st if q[:len(p)] != p and not (len(p) > 1 and q[-1:] == p[-1:]))
-        elif n.get("k") == "call" and n.get("fn") in ("nni_aio_reset", "nni_aio_start", "nni_sleep_aio", "nni_pipe_recv",
-                                                      "nni_pipe_send", "nni_msgq_aio_get", "nni_msgq_aio_put",
-                                                      "nng_stream_send", "nng_stream_recv"):
+        elif n.get("k") == "call" and n.get("fn") in RESUBMIT:
             # the aio is (re)submitted: a later finish belongs to a new operation
             for a in n["args"]:
                 p = apath(fn.expand(a)) if a is not None else None
                 if p is not None and p in st:
                     return st - {p}
         return st
+
+
+RESUBMIT = ("nni_aio_reset", "nni_aio_start", "nni_sleep_aio", "nni_pipe_recv", "nni_pipe_send", "nni_msgq_aio_get",
+            "nni_msgq_aio_put", "nng_stream_send", "nng_stream_recv", "nng_sleep_aio", "nni_sock_send", "nni_sock_recv",
+            "nni_ctx_send", "nni_ctx_recv", "nng_stream_listener_accept", "nng_stream_dialer_dial", "nni_http_read_full",
+            "nni_http_read", "nni_http_write", "nni_http_write_full", "nni_dialer_start_aio")
 
 
 def rule_a4(ctx):
@@ -504,10 +537,19 @@ def rule_a4(ctx):
         if not any(True for _ in fn.calls(FINISH_OR_COMPLETE)):
             continue
         rep = []
-        sim = Sim(fn, _FinishClient(fn, rep), max_states=20000)
+        after = []
+        sim = Sim(fn, _FinishClient(fn, rep, after), max_states=20000)
         sim.run()
         if sim.truncated:
             raise AnalysisBroken("finish simulation truncated in %s" % fn.name)
+        seen_after = set()
+        for line, what, callee, lines in after:
+            if (what, callee) in seen_after:
+                continue
+            seen_after.add((what, callee))
+            ctx.fail(r, fn, "%s(%s) after the aio was completed" % (callee, what), line,
+                     "aio %s is passed to %s after it was completed on this path: its callback may already have re-used or "
+                     "released it" % (what, callee), lines)
         if rep:
             for line, what, lines in rep[:3]:
                 ctx.fail(r, fn, "double finish of %s" % what, line,
